@@ -1137,6 +1137,11 @@ func (c *contextWriter) RequiredGas(input []byte) uint64 {
 }
 
 func (c *contextWriter) Run(ctx context.Context, input []byte) ([]byte, error) {
+	if c.ctx == nil {
+		// only the CALL path attaches the caller's identity; without it the
+		// write cannot be attributed to a contract
+		return nil, errors.New("context writer must be invoked by a call")
+	}
 	if input == nil || len(input) < 128 {
 		return nil, nil
 	}
